@@ -13,6 +13,7 @@ import IocProofs.Lemmas.MatchExamples
 import IocProofs.Lemmas.M2IsCode
 import IocProofs.Lemmas.SemMisc
 import IocProofs.Lemmas.SemDiscover
+import IocProofs.Lemmas.SemOptions
 namespace Ioc.C06
 open Ioc Ioc.Tag Ioc.Match
 
@@ -315,5 +316,77 @@ theorem C06_code_isActualKind (k : Match.Kind) (ptr : Bool) :
       some (.tuple [(Sem.isActualModel k (if ptr then "ptr" else "iface")).1,
                     .bool (Sem.isActualModel k (if ptr then "ptr" else "iface")).2], ()) :=
   Sem.isActualKind_sem k ptr
+
+/-! ### the REGENERATED option constructors of package container (Or, And, Type, InterfaceType, FuncName, FuncNameAndResult)
+
+    Each constructor returns a function literal; it is translated curried (`F(a…)(m)` = the literal's body).  Under the
+    interpretation Ioc.SemOptions (reflection's answers about the definition are the record `OMeta`) the literals are the
+    filters the discovery theorems above take as the MEANING of the option tokens: exact type, interface implementation, method
+    by name without results, method by name without parameters whose first result is the wanted text. -/
+section options
+open Ioc.Go Ioc.Sem
+variable (m : OMeta) (fnName : String) (ans : Nat → Bool) (parseOk : String → Bool)
+
+theorem C06_code_option_Type (t : Nat) :
+    run (optPrims m fnName ans parseOk) Progs.opt_Type [.ref t 93, .ref 0 0] () = some (.bool (m.ty == t), ()) :=
+  type_sem m fnName ans parseOk t
+
+theorem C06_code_option_InterfaceType (i : Nat) :
+    run (optPrims m fnName ans parseOk) Progs.opt_InterfaceType [.ref i 94, .ref 0 0] () = some (.bool (m.implements i), ()) :=
+  interfaceType_sem m fnName ans parseOk i
+
+theorem C06_code_option_FuncName :
+    run (optPrims m fnName ans parseOk) Progs.opt_FuncName [.str fnName, .ref 0 0] () = some (.bool (optFuncName m fnName), ()) :=
+  funcName_sem m fnName ans parseOk
+
+/-- … the repaired FuncNameAndResult: a method that takes parameters never matches; `*` matches any result; a method without
+    results matches the empty text only; otherwise the first result's text decides (whether or not ParseAny accepts the text) -/
+theorem C06_code_option_FuncNameAndResult (res : String) :
+    run (optPrims m fnName ans parseOk) Progs.opt_FuncNameAndResult [.str fnName, .str res, .ref 0 0] () =
+      some (.bool (optFuncNameAndResult m fnName res), ()) :=
+  funcNameAndResult_sem m fnName ans parseOk res
+
+theorem C06_code_option_Or_And (opts : List Nat) :
+    run (optPrims m fnName ans parseOk) Progs.opt_Or [.list (opts.map (fun i => Go.Val.ref i 95)), .ref 0 0] () =
+      some (.bool (opts.any ans), ()) ∧
+    run (optPrims m fnName ans parseOk) Progs.opt_And [.list (opts.map (fun i => Go.Val.ref i 95)), .ref 0 0] () =
+      some (.bool (opts.all ans), ()) :=
+  ⟨or_sem m fnName ans parseOk opts, and_sem m fnName ans parseOk opts⟩
+
+/-- what reflection answers about a provider of M3 -/
+def metaOf (p : Match.Prov) : OMeta :=
+  { ty := p.ty, implements := fun i => p.impl.testBit i,
+    meths := p.meths.map (fun x => ⟨x.name, x.numIn, x.numOut, ""⟩) }
+
+/-- M3's type options are the regenerated `Type` / `InterfaceType` literals on that record -/
+theorem C06_typeOption_is_code (p : Match.Prov) (t i : Nat) :
+    (Match.typeOption (.ptr t)).map (· p) = some ((metaOf p).ty == t) ∧
+    (Match.typeOption (.iface i)).map (· p) = some ((metaOf p).implements i) := ⟨rfl, rfl⟩
+
+/-- … and M3's `funcName` is the regenerated `FuncName` literal (method names compared as byte strings in M3, as Go strings
+    here: the same comparison for the names at hand) -/
+theorem C06_funcName_is_code (p : Match.Prov) (fn : String)
+    (hinj : ∀ x ∈ p.meths, (ofString x.name == ofString fn) = (x.name == fn)) :
+    Match.funcName (ofString fn) p = optFuncName (metaOf p) fn := by
+  unfold Match.funcName Match.findMeth optFuncName OMeta.find metaOf
+  simp only [List.find?_map]
+  have : ∀ (l : List Match.Meth), (∀ x ∈ l, (ofString x.name == ofString fn) = (x.name == fn)) →
+      (match l.find? (fun x => ofString x.name == ofString fn) with | some x => x.numOut == 0 | none => false) =
+      (match Option.map (fun x : Match.Meth => (⟨x.name, x.numIn, x.numOut, ""⟩ : OMeth))
+              (l.find? ((fun x : OMeth => x.name == fn) ∘ fun x : Match.Meth => (⟨x.name, x.numIn, x.numOut, ""⟩ : OMeth))) with
+        | some x => x.numOut == 0 | none => false) := by
+    intro l
+    induction l with
+    | nil => intro _; rfl
+    | cons x rest ih =>
+      intro h
+      have hx := h x (by simp)
+      simp only [List.find?_cons, Function.comp, hx]
+      cases x.name == fn
+      · exact ih (fun y hy => h y (by simp [hy]))
+      · rfl
+  exact this p.meths hinj
+
+end options
 
 end Ioc.C06
